@@ -456,6 +456,12 @@ func vGetProxy(kind cache.EntryKind, mode casblob.CompressionType, wantZstd bool
 	vsym.Assert(it.size == found, "proxyget/indexed-with-backend-size")
 	vsym.Assert(it.sizeOnDisk == bs.L, "proxyget/indexed-with-bytes-received")
 	uncompressedOnDisk := kind != cache.CAS || mode == casblob.Identity
+	if !uncompressedOnDisk && bs.Head != nil {
+		// a compressed object is complete only if it is as long as its own
+		// chunk table says (final offset = file size): a stream that ends
+		// early without an error is not a hit and is not cached
+		vsym.Assert(vLE(bs.Head, 37, 8) == bs.L, "proxyget/C12-truncated-compressed-stream-is-not-a-hit")
+	}
 	if uncompressedOnDisk {
 		// entries stored raw: the object is complete only if all advertised bytes arrived
 		vsym.Assert(bs.L == found, "proxyget/C12-short-or-long-stream-is-not-a-hit")
@@ -489,3 +495,61 @@ func VerifProxyGetAC()         { vGetProxy(cache.AC, casblob.Zstandard, false) }
 func VerifProxyGetCasRaw()     { vGetProxy(cache.CAS, casblob.Identity, false) }
 func VerifProxyGetCasZstd()    { vGetProxy(cache.CAS, casblob.Zstandard, false) }
 func VerifProxyGetCasZstdZ()   { vGetProxy(cache.CAS, casblob.Zstandard, true) }
+
+// A compressed CAS object fetched from the backend whose stream ends early (or
+// runs on) without any error: the header is perfectly valid for a file of
+// tableEnd bytes, the stream delivers streamLen bytes.
+func VerifProxyGetCasZstdShort() {
+	const logical = 1500000
+	d := vNewDisk(0, casblob.Zstandard, nil, true)
+	c, px := d.c, d.px
+	vsym.Assume(c.maxBlobSize >= 2<<20)
+	vsym.Assume(c.maxProxyBlobSize >= 2<<20)
+	vsym.Assume(c.lru.maxSize >= 8<<20)
+	vsym.Assume(c.lru.reservedSize == 0)
+	c.lru.maxSizeHardLimit = 0
+	tableEnd := vsym.Int64("tableEnd")
+	vsym.Assume(tableEnd > 45)
+	vsym.Assume(tableEnd < 4<<20)
+	streamLen := vsym.Int64("streamLen")
+	vsym.Assume(streamLen >= 45)
+	vsym.Assume(streamLen < 8<<20)
+	head := vsym.Bytes("bh", 45)
+	vsym.Assume(vLE(head, 0, 4) == 0x184D2A50)
+	vsym.Assume(vLE(head, 4, 4) == 2*8+8+1+4+8)
+	vsym.Assume(vLE(head, 8, 8) == logical)
+	vsym.Assume(head[16] == byte(casblob.Zstandard))
+	vsym.Assume(vLE(head, 17, 4) == 2<<20) // one chunk
+	vsym.Assume(vLE(head, 21, 8) == 2)
+	vsym.Assume(vLE(head, 29, 8) == 45)
+	vsym.Assume(vLE(head, 37, 8) == tableEnd)
+	bs := &vmodel.MStream{Name: "backend", L: streamLen, FailAt: -1, Head: head}
+	px.getRC, px.getSize = bs, logical
+	d.codec.Arbitrary = true
+	req := int64(-1)
+	if vsym.Choose("sizeKnown", 2) == 1 {
+		req = logical
+	}
+	var rc io.ReadCloser
+	var err error
+	if vsym.Choose("asZstd", 2) == 1 {
+		rc, _, err = c.GetZstd(context.Background(), vHashA, req, 0)
+	} else {
+		rc, _, err = c.Get(context.Background(), cache.CAS, vHashA, req, 0)
+	}
+	vsym.Reach("proxyget-short-returned")
+	_, el := c.lru.Get(cache.LookupKey(cache.CAS, vHashA))
+	if rc != nil && err == nil {
+		vsym.Reach("proxyget-short-hit")
+		vsym.Assert(streamLen == tableEnd, "proxyget/C12-truncated-or-overlong-compressed-stream-is-not-a-hit")
+		_ = rc.Close()
+	} else {
+		vsym.Reach("proxyget-short-no-hit")
+		vsym.Assert(streamLen != tableEnd, "proxyget/C12-complete-compressed-stream-is-a-hit")
+	}
+	if el != nil {
+		vsym.Assert(streamLen == tableEnd, "proxyget/C12-truncated-compressed-stream-was-cached")
+	}
+	d.drain()
+	d.checkDirEqualsIndex("proxyget-short/C12")
+}
